@@ -4,6 +4,7 @@ CONSTANTS
   Lens = {1, 2, 3, 4}
   OneAxisMax = 9
   LargeN = {169, 171, 400, 1029, 1030, 1200, 2000}
+  BandN = {170, 171, 172, 175}
   AB_WrongStep = FALSE
   FromSet <- MCFromSet
   LargeSet <- MCLargeSet
